@@ -22,7 +22,9 @@ def bounded(text, ref):
 CLAIMS = {
  'C01': dict(category='other', design_ref='DESIGN.md 5/C01', note=TRUST, technique=TECH_MIX,
    text='Mixed: ' + PROOF_L + ' -- this is the generic machinery diff_notebooks is built on; the notebook-specific differs (multilevel snakes, '
-        'output/mime/attachment differs, string flattening) and the nbdiff --out / nbpatch file interface are covered by a BOUNDED run-time contract with an '
+        'output/mime/attachment differs, string flattening) are covered by a BOUNDED run-time contract; for the nbdiff --out file interface the delivery of the diff is PROVED '
+        'path by path on nbdiffapp._handle_diff (every returning path that computed the diff dumps it once to the file opened on --out, or pretty-prints it once), the content of the '
+        'file and nbpatch are covered by the BOUNDED run-time contract (real processes, two locales) with an '
         'independent implementation of the documented diff format as second oracle. Hence level other, not proof.'),
  'C02': dict(category='other', design_ref='DESIGN.md 5/C02', note=TRUST, technique=TECH_MIX,
    text='Mixed: ' + PROOF_L + '; the string differ/patcher (assumed contracts) are covered only by a BOUNDED run-time contract on the public API '
